@@ -1,5 +1,5 @@
-//! Findings maps (DESIGN 3.4): restricted to what `analyze_dir` can produce —
-//! every pattern present has at least one file, every file at least one line.
+//! Findings maps (DESIGN 3.4): any subset of patterns, 0-4 files per pattern (a key with an
+//! empty file vector has no finding; the renderers guard for it), every file at least one line.
 
 use crate::patterns::{self, Pat};
 use proptest::prelude::*;
@@ -43,7 +43,7 @@ pub fn findings(category: &'static str, min_patterns: usize) -> impl Strategy<Va
     prop::sample::subsequence(names, min_patterns.min(n)..=n).prop_shuffle().prop_flat_map(|chosen| {
         let per: Vec<_> = chosen
             .into_iter()
-            .map(|name| (Just(name.to_string()), prop::collection::vec((file_name(), line_set()), 1..5)))
+            .map(|name| (Just(name.to_string()), prop_oneof![6 => prop::collection::vec((file_name(), line_set()), 1..5), 1 => Just(Vec::new())]))
             .collect();
         per
     })
